@@ -161,9 +161,10 @@ func (s *Source) fork(r *lib.RNG, id uint64) *Source {
 	d := s.G.SrcDB.Copy()
 	g.SrcDB = d
 	g.Src = lib.NodeOn(d, g.Net, s.G.NewState)
-	n := len(s.G.Bundles)
-	g.Bundles = s.G.Bundles[:n:n]
-	g.States = s.G.States[:n:n]
+	// full copies: a fork that reverts below the fork point and stores again must not write
+	// into the parent's backing arrays
+	g.Bundles = append([]*lib.Bundle(nil), s.G.Bundles...)
+	g.States = append([]*lib.AbsState(nil), s.G.States...)
 	seq := (id + 2) << 32
 	return &Source{G: g, txSeq: &seq}
 }
